@@ -98,15 +98,30 @@ Theorem C11_no_conn_lost : forall cfg sched c, pl_view (pl_exec cfg sched) c <> 
 Proof. exact no_conn_lost. Qed.
 Print Assumptions C11_no_conn_lost.
 
+(* a session has one worker goroutine (Control.Start starts it once): then no schedule closes the pool twice *)
+Theorem C11_single_teardown_never_crashes : forall cfg sched,
+  one_teardown cfg -> ps_crashed (pl_exec cfg sched) = false.
+Proof. exact single_teardown_never_crashes. Qed.
+Print Assumptions C11_single_teardown_never_crashes.
+
 (* once every thread has run to its end and the session has been torn down, every work connection that
    ever arrived is closed or bridged to the user it was delivered to *)
 Theorem C11_no_orphan_after_teardown : forall cfg sched c,
+  one_teardown cfg ->
   let s := pl_exec cfg sched in
   (forall t, pl_thread_finished (ps_thr s t) = true) ->
-  (exists t, ps_thr s t = TT TFin) -> ps_crashed s = false ->
+  (exists t, ps_thr s t = TT TFin) ->
   pl_view s c = VNone \/ pl_view s c = VClosed \/ exists u, pl_view s c = VDelivered u /\ ps_user s u = UBridged c.
-Proof. exact no_orphan_after_teardown. Qed.
+Proof. exact no_orphan_after_teardown_single. Qed.
 Print Assumptions C11_no_orphan_after_teardown.
+
+(* a user connection that is neither bridged nor closed is still in the hands of its handler goroutine,
+   in every reachable state: it is never left open with nobody serving it *)
+Theorem C11_user_open_is_being_served : forall cfg sched u,
+  let s := pl_exec cfg sched in
+  ps_user s u = UOpen -> exists p, ps_thr s u = TU p /\ p <> UDone.
+Proof. exact user_open_is_being_served. Qed.
+Print Assumptions C11_user_open_is_being_served.
 
 (* surplus offers (pool full), offers to a closed pool and offers for an unknown run id are refused ... *)
 Theorem C11_surplus_refused : forall cfg s t,
@@ -147,6 +162,7 @@ Example C11_example :
   let s := pl_exec ex_cfg ex_sched in
   forallb (fun t => pl_thread_finished (ps_thr s t)) (seq 0 8) = true /\
   ps_thr s 3%nat = TT TFin /\ ps_crashed s = false /\ ps_req s = 6 /\
+  (forall t1 t2, (t1 < 8)%nat -> (t2 < 8)%nat -> pl_req_of ex_cfg t1 = Some RTeardown -> pl_req_of ex_cfg t2 = Some RTeardown -> t1 = t2) /\
   pl_view s 0%nat = VDelivered 2 /\ pl_view s 1%nat = VClosed /\ pl_view s 4%nat = VClosed /\
   ps_user s 2%nat = UBridged 0 /\ length (ps_log s) = 1%nat.
 Proof. vm_compute. repeat split; reflexivity. Qed.
